@@ -356,6 +356,11 @@ class IndexedGrammar:
             When trying to intersection with something else than a regular
             expression or a finite automaton
         """
+        # Imported here: the module may not have been loaded yet (and
+        # importing it at the top would be cyclic)
+        # pylint: disable=import-outside-toplevel
+        import pyformlang.regular_expression
+        import pyformlang.finite_automaton
         if isinstance(other, pyformlang.regular_expression.Regex):
             other = other.to_epsilon_nfa()
         if isinstance(other, pyformlang.finite_automaton.FiniteAutomaton):
